@@ -9,7 +9,8 @@ BUDGET = {'quick': 32000, 'thorough': 640000}
 RULE = ('cases = operation sequences (<=30 ops) over one SimulatedClock whose real-time source '
         '(sismic.clock.clock.time) is replaced by a scripted function: start, stop, speed=s '
         '(multiples of 1/8 in [0,16]), time=x (x below, equal to, or above the current value), '
-        'real time passes by dt (multiples of 1/64), read, and execute_once of an interpreter '
+        'real time passes by dt (multiples of 1/64), read, execute_once of an interpreter (which an '
+        '`end` operation sends into its final configuration; steps go on afterwards) '
         'using the clock (for SynchronizedClock), and copy (deepcopy or pickle round trip of '
         'clock + interpreter + SynchronizedClock together; the copies replace the originals). An exact model (Fractions) predicts every read: '
         'never decreasing, frozen while stopped, speed x elapsed while started, rejected '
@@ -30,7 +31,7 @@ def strategy(tier):
         st.tuples(st.just('speed'), st.integers(0, 128).map(lambda n: n / 8)).map(list),
         st.tuples(st.just('set'), st.integers(-256, 640).map(lambda n: n / 64)).map(list),
         st.tuples(st.just('pass'), dt).map(list), st.tuples(st.just('pass'), dt).map(list),
-        st.just(['read']), st.just(['exec']),
+        st.just(['read']), st.just(['exec']), st.just(['exec']), st.just(['end']),
         st.sampled_from([['copy', 'deepcopy'], ['copy', 'pickle']]),
         # large magnitudes (epoch-like values) and near misses just below the current value
         st.sampled_from([['set', 2.0 ** 30], ['set', 2.0 ** 20], ['set', -2.0 ** -10],
@@ -65,8 +66,12 @@ def oracle(case):
     cmod.time = lambda: float(m.real)
     try:
         clock = SimulatedClock()
+        from sismic.model import CompoundState, FinalState, Transition
         sc = Statechart('c')
-        sc.add_state(BasicState('a'), None)
+        sc.add_state(CompoundState('r', initial='a'), None)
+        sc.add_state(BasicState('a'), 'r')
+        sc.add_state(FinalState('f'), 'r')
+        sc.add_transition(Transition('a', 'f', event='end'))
         interp = Interpreter(sc, clock=clock)
         sync = SynchronizedClock(interp)
         # clocks created by bind_property_statechart (regular call and the deprecated call that
@@ -180,6 +185,8 @@ def oracle(case):
                     clock, interp, sync = _pickle.loads(_pickle.dumps((clock, interp, sync)))
                 labels['copies'] = labels.get('copies', 0) + 1
                 copied = True
+            elif k == 'end':
+                interp.queue('end')      # the next step ends the followed statechart (final)
             elif k == 'exec':
                 if copied and Fraction(m.read()) != last_exec:
                     labels['steps of a copied interpreter at a later time'] = labels.get(
